@@ -33,19 +33,21 @@ CONSTANTS Client,        \* submitting clients
           InitAuth,      \* registered at the start
           Staked,        \* authorizers whose stake reaches the pool's minimum
           Nonces,        \* mint nonces
-          MinBurn, BurnVals,
+          MinBurn, BurnVals,   \* MinBurn / MinMint: the configured minimums at the start
           MinMint, MaxFee, MintAmts,
+          MinVals,       \* values the owner may set min_burn / min_mint to (update-global-config); {} = never
           PctMilli,
           MaxBurnNonce,
           SigSeqs,       \* signature lists explored: sequences of [a, k], k in valid|forged|garbage
           Acceptance, CountsUnverified, RewardNeedsStake
 
-VARIABLES auth, minted, burnNonce, last
-vars == <<auth, minted, burnNonce, last>>
+VARIABLES auth, minted, burnNonce, minBurn, minMint, last
+vars == <<auth, minted, burnNonce, minBurn, minMint, last>>
 
 NoStep == [op |-> "other", ok |-> FALSE]
 
 Init == /\ auth = InitAuth /\ minted = {} /\ burnNonce = [e \in Eth |-> 0]
+        /\ minBurn = MinBurn /\ minMint = MinMint
         /\ last = [op |-> "other", ok |-> TRUE, preAuth |-> InitAuth, preMinted |-> {}, postMinted |-> {},
                    preBurn |-> [e \in Eth |-> 0], postBurn |-> [e \in Eth |-> 0], dClient |-> 0, dWallet |-> 0, others |-> FALSE]
 
@@ -53,15 +55,17 @@ Frame(op, ok) == [op |-> op, ok |-> ok, preAuth |-> auth, preMinted |-> minted, 
                   preBurn |-> burnNonce, postBurn |-> burnNonce, dClient |-> 0, dWallet |-> 0, others |-> FALSE]
 
 (* ---- burn (burn.go:17-115) ---- *)
+(* the minimum is the min_burn of the global node AS CONFIGURED NOW: the owner may have changed it, and  *)
+(* min_mint is a separate setting that has no say in a burn                                            *)
 Burn(c, e, v) ==
-  LET guard == v >= MinBurn /\ e # NoEth IN
+  LET guard == v >= minBurn /\ e # NoEth IN
   \E ok \in (IF guard THEN {TRUE, FALSE} ELSE {FALSE}) :     \* FALSE under guard: the transfer is refused (balance)
     /\ (ok => burnNonce[e] < MaxBurnNonce)
     /\ burnNonce' = IF ok THEN [burnNonce EXCEPT ![e] = @ + 1] ELSE burnNonce
     /\ last' = [Frame("burn", ok) EXCEPT !.postBurn = burnNonce', !.dClient = IF ok THEN -v ELSE 0,
                                           !.dWallet = IF ok THEN v ELSE 0]
-               @@ [v |-> v, min |-> MinBurn, ethEmpty |-> (e = NoEth), eth |-> e, c |-> c]
-    /\ UNCHANGED <<auth, minted>>
+               @@ [v |-> v, min |-> minBurn, ethEmpty |-> (e = NoEth), eth |-> e, c |-> c]
+    /\ UNCHANGED <<auth, minted, minBurn, minMint>>
 
 (* ---- mint (mint.go:23-210) ---- *)
 D(sigs) == [i \in 1..Len(sigs) |-> [a |-> sigs[i].a, d |-> IF sigs[i].k = "valid" THEN 1 ELSE 0]]
@@ -76,7 +80,7 @@ WrittenAccepts(c, p) ==
       lastOf(a) == sg[CHOOSE i \in 1..Len(sg) : sg[i].a = a /\ \A j \in (i + 1)..Len(sg) : sg[j].a # a]
       passes(e) == e.a \in auth /\ (IF CountsUnverified THEN e.k # "garbage" ELSE e.k = "valid")
   IN /\ Len(p.sigs) > 0 /\ n > 0 /\ Len(p.sigs) >= T
-     /\ p.rcv = c /\ p.amt >= MinMint /\ p.amt >= MaxFee
+     /\ p.rcv = c /\ p.amt >= minMint /\ p.amt >= MaxFee
      /\ p.n \notin minted
      /\ \A a \in ids : passes(lastOf(a))
      /\ Cardinality(ids) >= T
@@ -84,7 +88,7 @@ WrittenAccepts(c, p) ==
 IntendedAccepts(c, p) ==
   LET v == Cardinality(ValidSigners(D(p.sigs), auth)) IN
   /\ auth # {} /\ v > 0 /\ v >= T
-  /\ p.rcv = c /\ p.amt >= MinMint /\ p.amt >= MaxFee /\ p.n \notin minted
+  /\ p.rcv = c /\ p.amt >= minMint /\ p.amt >= MaxFee /\ p.n \notin minted
 
 Accepts(c, p) == IF Acceptance = "written" THEN WrittenAccepts(c, p) ELSE IntendedAccepts(c, p)
 
@@ -102,17 +106,26 @@ Mint(c, p) ==
                @@ [selfRcv |-> (p.rcv = c), sigs |-> Canon(D(p.sigs), auth), pct |-> PctMilli, nonce |-> p.n, amt |-> p.amt,
                    credited |-> cred, creditedTo |-> IF cred > 0 THEN {to} ELSE {}, payee |-> to, fee |-> share,
                    wellFormed |-> Cardinality({p.sigs[i].a : i \in {j \in 1..Len(p.sigs) : p.sigs[j].k # "garbage"}} \cap auth)]
-    /\ UNCHANGED <<auth, burnNonce>>
+    /\ UNCHANGED <<auth, burnNonce, minBurn, minMint>>
 
 (* ---- authorizer registration (authorizer.go) ---- *)
-Register(a) == a \notin auth /\ auth' = auth \cup {a} /\ last' = Frame("other", TRUE) /\ UNCHANGED <<minted, burnNonce>>
-Delete(a) == a \in auth /\ auth' = auth \ {a} /\ last' = Frame("other", TRUE) /\ UNCHANGED <<minted, burnNonce>>
+Register(a) == a \notin auth /\ auth' = auth \cup {a} /\ last' = Frame("other", TRUE) /\ UNCHANGED <<minted, burnNonce, minBurn, minMint>>
+Delete(a) == a \in auth /\ auth' = auth \ {a} /\ last' = Frame("other", TRUE) /\ UNCHANGED <<minted, burnNonce, minBurn, minMint>>
+
+(* ---- update-global-config (config.go / nodes.go UpdateConfig): the owner sets ONE of the two minimums ---- *)
+SetMin(which, v) ==
+  /\ which \in {"min_burn", "min_mint"} /\ v \in MinVals
+  /\ minBurn' = IF which = "min_burn" THEN v ELSE minBurn
+  /\ minMint' = IF which = "min_mint" THEN v ELSE minMint
+  /\ last' = Frame("other", TRUE)
+  /\ UNCHANGED <<auth, minted, burnNonce>>
 
 MintPayloads == [rcv : Client, n : Nonces, amt : MintAmts, sigs : SigSeqs]
 
 Next == \/ \E c \in Client, e \in Eth \cup {NoEth}, v \in BurnVals : Burn(c, e, v)
         \/ \E c \in Client, p \in MintPayloads : Mint(c, p)
         \/ \E a \in Auths : Register(a) \/ Delete(a)
+        \/ \E w \in {"min_burn", "min_mint"}, v \in MinVals : SetMin(w, v)
 Spec == Init /\ [][Next]_vars
 
 -----------------------------------------------------------------------------
@@ -136,7 +149,7 @@ C18_AmountsUnlessUnstaked == (last.op = "mint" /\ last.ok) =>
      /\ (last.credited = last.fee \/ (last.payee \notin Staked /\ last.credited = 0))
 
 (* the same as action properties: checked by TLC on every transition, also when the exhaustive *)
-(* configs identify states by the VIEW <<auth, minted, burnNonce>> (last does not influence the future) *)
+(* configs identify states by the VIEW StateView (last does not influence the future) *)
 P_C19_BurnExact == [][BurnStepOK(last')]_vars
 P_C19_BurnGuard == [][BurnGuardOK(last')]_vars
 P_C18_MintQuorum == [][MintQuorumOK(last')]_vars
@@ -149,5 +162,5 @@ P_C18_QuorumOfWellFormed == [][(last'.op = "mint" /\ last'.ok) =>
 P_C18_AmountsUnlessUnstaked == [][(last'.op = "mint" /\ last'.ok) =>
      /\ last'.dClient = last'.amt - last'.fee /\ last'.dWallet = -last'.dClient
      /\ (last'.credited = last'.fee \/ (last'.payee \notin Staked /\ last'.credited = 0))]_vars
-StateView == <<auth, minted, burnNonce>>
+StateView == <<auth, minted, burnNonce, minBurn, minMint>>
 =============================================================================
